@@ -332,15 +332,8 @@ def rule_child(ctx):
 
 
 def rule_unknown(ctx):
-    p = ctx.p
-    for base in (msg_base(p), part_base(p)):
-        f = base.find_method("from_xml")
-        paths = run_method(p, f, self_val=Cls(base), args=[Term("param", "xml")], opts={"max_for": 2})
-        ctx.paths_enumerated += len(paths)
-        zero = [pa for pa in paths if any(e.kind == "loop-enter" and e.data["n"] == 0 for e in pa.events)]
-        nomatch = [pa for pa in paths if not any(e.data["truth"] and "tag_name()" in show(e.data["cond"]) for e in pa.assumes())]
-        ok = bool(zero) and all(pa.outcome == "raise" for pa in zero) and all(pa.outcome == "raise" for pa in nomatch)
-        ctx.check(ok, "C13.UNKNOWN", f.short, f"{len(nomatch)} no-match paths all raise", "an element whose tag matches no registered class is not rejected", fi=f, text="unknown-tag")
+    from .c03 import check_unknown
+    check_unknown(ctx, "C13.UNKNOWN")
 
 
 RULES = [
